@@ -41,29 +41,40 @@ pub fn v_board<N: Nd>(n: &mut N, a: u32) {
     vcover!(!want && refm::placement_ok(&p) && refm::king_att(p.king_bb(0)) & p.king_bb(1) != 0, "adjacent kings");
 }
 
-/// `calculate_checkers_and_pins(c)` == reference for both colours, and
-/// `checkers_and_pins_are_valid` == "fields equal the reference and < 3 checkers".
-pub fn v_fresh<N: Nd>(n: &mut N, a: u32) {
+/// `calculate_checkers_and_pins(c)` == reference for colour `c` (the constructor
+/// half of C03: a freshly constructed board reports the reference checkers/pins).
+pub fn v_fresh<N: Nd>(n: &mut N, a: u32, c: u8) {
     let p = sym_pos(n);
     n.assume(one_king_each(&p));
-    let c = n.u8();
-    n.assume(c < 2);
     if a < 16 {
         n.assume(aligned_sliders(&p, c as usize).count_ones() <= a);
-        n.assume(aligned_sliders(&p, p.stm as usize).count_ones() <= a);
     }
     if n.native() {
         println!("witness: raw board \"{}\" colour {}", fen(&p, 0, 1), c);
     }
-    let (fc, fp) = (n.u64(), n.u64());
-    let b = board_raw(&p, n.u8(), n.u16(), n.u64(), fc, fp);
+    let b = board_raw(&p, n.u8(), n.u16(), n.u64(), n.u64(), n.u64());
     let (ck, pin) = b.verif_calculate_checkers_and_pins(color(c));
     let (rck, rpin) = refm::checkers_and_pins(&p, c as usize);
     assert!(ck.0 == rck);
     assert!(pin.0 == rpin);
+    vcover!(rck.count_ones() == 2 && rpin != 0, "double check with a pin");
+}
+
+/// `checkers_and_pins_are_valid` == "stored fields equal the reference and fewer than three checkers".
+pub fn v_ckpin<N: Nd>(n: &mut N, a: u32) {
+    let p = sym_pos(n);
+    n.assume(one_king_each(&p));
+    if a < 16 {
+        n.assume(aligned_sliders(&p, p.stm as usize).count_ones() <= a);
+    }
+    if n.native() {
+        println!("witness: raw board \"{}\"", fen(&p, 0, 1));
+    }
+    let (fc, fp) = (n.u64(), n.u64());
+    let b = board_raw(&p, n.u8(), n.u16(), n.u64(), fc, fp);
     let (sck, spin) = refm::checkers_and_pins(&p, p.stm as usize);
     assert!(b.verif_validator(1) == (fc == sck && fp == spin && sck.count_ones() < 3));
-    vcover!(rck.count_ones() == 2 && rpin != 0, "double check with a pin");
+    vcover!(fc == sck && fp == spin && sck.count_ones() == 3, "three checkers stored correctly");
 }
 
 /// `castle_rights_are_valid` == reference on boards with one king per side.
@@ -124,16 +135,48 @@ static mut V_EP: bool = false;
 static mut CK: u64 = 0;
 static mut PIN: u64 = 0;
 
-pub fn stub_board_is_valid(_b: &Board) -> bool {
+// Each stub also checks that the board it is asked about is in the state the real
+// validator needs: placement and side written before `board_is_valid`, derived
+// checkers/pins stored before the later validators, rights / en-passant file written
+// before their validators (a reordering inside build() is caught here).
+static mut X_PC: [u64; 6] = [0; 6];
+static mut X_COL: [u64; 2] = [0; 2];
+static mut X_STM: u8 = 0;
+static mut X_CASTLE: [[u8; 2]; 2] = [[8; 2]; 2];
+static mut X_EP: u8 = 8;
+
+fn placed(b: &Board) -> bool {
+    let q = pos_of(b);
+    let mut ok = true;
+    unsafe {
+        let mut i = 0;
+        while i < 6 {
+            ok &= q.pc[i] == X_PC[i];
+            i += 1;
+        }
+        ok &= q.col[0] == X_COL[0] && q.col[1] == X_COL[1] && q.stm == X_STM;
+    }
+    ok
+}
+
+pub fn stub_board_is_valid(b: &Board) -> bool {
+    assert!(placed(b));
     unsafe { V_BOARD }
 }
-pub fn stub_ckpin_valid(_b: &Board) -> bool {
+pub fn stub_ckpin_valid(b: &Board) -> bool {
+    assert!(placed(b));
+    assert!(unsafe { b.checkers().0 == CK && b.pinned().0 == PIN });
     unsafe { V_CKPIN }
 }
-pub fn stub_castle_valid(_b: &Board) -> bool {
+pub fn stub_castle_valid(b: &Board) -> bool {
+    assert!(placed(b));
+    assert!(unsafe { refm::castle_same(&pos_of(b).castle, &X_CASTLE) });
     unsafe { V_CASTLE }
 }
-pub fn stub_ep_valid(_b: &Board) -> bool {
+pub fn stub_ep_valid(b: &Board) -> bool {
+    assert!(placed(b));
+    assert!(unsafe { b.checkers().0 == CK && b.pinned().0 == PIN });
+    assert!(unsafe { pos_of(b).ep == X_EP });
     unsafe { V_EP }
 }
 pub fn stub_calc(_b: &Board, _c: Color) -> (BitBoard, BitBoard) {
@@ -192,6 +235,11 @@ pub fn build_seq<N: Nd>(n: &mut N, with_hash: bool) {
     }
     let ep_ok = ep_rank_ok && refm::ep_ok(&p);
     unsafe {
+        X_PC = p.pc;
+        X_COL = p.col;
+        X_STM = p.stm;
+        X_CASTLE = p.castle;
+        X_EP = p.ep;
         V_BOARD = board_ok;
         V_CKPIN = ck_ok;
         V_CASTLE = castle_ok;
@@ -430,9 +478,15 @@ crate::proofs! {
     c06_v_board_a4 => |n: &mut _| v_board(n, 4);
     c06_v_board_a8 => |n: &mut _| v_board(n, 8);
     c06_v_board_a16 => |n: &mut _| v_board(n, 16);
-    c06_v_fresh_a4 => |n: &mut _| v_fresh(n, 4);
-    c06_v_fresh_a8 => |n: &mut _| v_fresh(n, 8);
-    c06_v_fresh_a16 => |n: &mut _| v_fresh(n, 16);
+    c06_v_fresh_w_a4 => |n: &mut _| v_fresh(n, 4, 0);
+    c06_v_fresh_b_a4 => |n: &mut _| v_fresh(n, 4, 1);
+    c06_v_fresh_w_a8 => |n: &mut _| v_fresh(n, 8, 0);
+    c06_v_fresh_b_a8 => |n: &mut _| v_fresh(n, 8, 1);
+    c06_v_fresh_w_a16 => |n: &mut _| v_fresh(n, 16, 0);
+    c06_v_fresh_b_a16 => |n: &mut _| v_fresh(n, 16, 1);
+    c06_v_ckpin_a4 => |n: &mut _| v_ckpin(n, 4);
+    c06_v_ckpin_a8 => |n: &mut _| v_ckpin(n, 8);
+    c06_v_ckpin_a16 => |n: &mut _| v_ckpin(n, 16);
     c06_v_castle => v_castle;
     c06_v_ep => v_ep;
     c06_v_clocks => v_clocks;
